@@ -88,7 +88,7 @@ def shape_tag(x):
 def numeric_args_ok(args, kwargs):
     """All array-like arguments are finite or +inf numbers (no NaN, no symbols)."""
     for a in list(args) + list(kwargs.values()):
-        if a is None or isinstance(a, (str, list, tuple, set)):
+        if a is None or isinstance(a, (str, list, tuple, set, slice, range)):
             continue
         if _is_sym(a):
             return False
@@ -191,7 +191,7 @@ class PrimMonitor:
             rec.count("calls_with_symbolic_or_nan_args")
             return
         if kind == "casadi" and not all(
-            _is_dm(a) or a is None or isinstance(a, (int, float, str, list, tuple, np.generic, np.ndarray))
+            _is_dm(a) or a is None or isinstance(a, (int, float, str, list, tuple, slice, range, np.generic, np.ndarray))
             for a in list(args) + list(kwargs.values())
         ):
             return
@@ -220,7 +220,7 @@ class PrimMonitor:
         finally:
             self.depth -= 1
         direction = "numpy->casadi" if kind == "numpy" else "casadi->numpy"
-        shapes = tuple(shape_tag(a) for a in args if not isinstance(a, (str, list, type(None))))
+        shapes = tuple(shape_tag(a) for a in args if not isinstance(a, (str, list, slice, range, type(None))))
         rec.seen("prim_x_direction", (name, direction))
         rec.seen("prim_x_shapes", (name, shapes))
         if err is not None:
